@@ -35,7 +35,6 @@ vertices -/
 def PInv (g : Graph) (s : Nat) (a : Array Bool) (et : Array Nat) : Prop :=
   et.size = g.n ∧ ∀ x, Vis a x → ∃ k, Chain g s a et x k ∧ k + cntF a < g.n
 
-theorem cntF_le_size (a : Array Bool) : cntF a ≤ a.size := Array.count_le_size
 
 /-! ## walks -/
 
